@@ -218,6 +218,8 @@ def optimizer(name):
         'momentum': lambda: o.sgd(0.1, momentum=0.9), 'nesterov': lambda: o.sgd(0.05, momentum=0.8, nesterov=True),
         'adam': lambda: o.adam(0.05), 'adagrad': lambda: o.adagrad(0.1), 'yogi': lambda: o.yogi(0.05),
         'rmsprop': lambda: o.rmsprop(0.02),
+        'adamw': lambda: o.create_optimizer_from_optax(__import__('optax').adamw(0.05, weight_decay=0.1)),
+        'adafactor_wd': lambda: o.adafactor(0.05, weight_decay_rate=0.05),
     }[name]()
   return _OPT_CACHE[name]
 
